@@ -157,7 +157,6 @@ func exhaustive(r *hk.Run) {
 	}
 	rec(nil)
 	r.Res.Histogram["exhaustive-cases"] = n
-	r.Hit("mechanism:fixupLastClaim-append-and-resort")
 }
 
 // (b) random histories
@@ -415,24 +414,24 @@ func malformed(r *hk.Run) {
 	rk := strconv.FormatUint(c.rk, 10)
 	bad := []string{
 		"", "nop", "pn", "pn 2", "pn 0", "pn 0 0", "pn x",
-		"claim 1 0 0 set 746167 78 1000 " + rk,           // id not above the last one
-		"claim 2 1 0 set 746167 78 1000 " + rk,           // permanode 1 does not exist
-		"claim 2 0 2 set 746167 78 1000 " + rk,           // signer
-		"claim 2 0 0 put 746167 78 1000 " + rk,           // kind
-		"claim 2 0 0 set 7461G7 78 1000 " + rk,           // hex
-		"claim 2 0 0 set 746167 7 1000 " + rk,            // odd hex
-		"claim 2 0 0 set 746167 FF 1000 " + rk,           // upper-case hex
-		"claim 2 0 0 set 746167 ff 1000 " + rk,           // not UTF-8
-		"claim 2 0 0 set 746167 c080 1000 " + rk,         // overlong UTF-8
-		"claim 2 0 0 set 746167 eda080 1000 " + rk,       // surrogate
-		"claim 2 0 0 set 746167 f4908080 1000 " + rk,     // beyond U+10FFFF
-		"claim 2 0 0 set - 78 1000 " + rk,                // empty attribute
-		"claim 2 0 0 set 746167 78 0 " + rk,              // date 0
-		"claim 2 0 0 set 746167 78 01000 " + rk,          // leading zero
-		"claim 2 0 0 set 746167 78 99999999999 " + rk,    // beyond MaxTime
+		"claim 1 0 0 set 746167 78 1000 " + rk,        // id not above the last one
+		"claim 2 1 0 set 746167 78 1000 " + rk,        // permanode 1 does not exist
+		"claim 2 0 2 set 746167 78 1000 " + rk,        // signer
+		"claim 2 0 0 put 746167 78 1000 " + rk,        // kind
+		"claim 2 0 0 set 7461G7 78 1000 " + rk,        // hex
+		"claim 2 0 0 set 746167 7 1000 " + rk,         // odd hex
+		"claim 2 0 0 set 746167 FF 1000 " + rk,        // upper-case hex
+		"claim 2 0 0 set 746167 ff 1000 " + rk,        // not UTF-8
+		"claim 2 0 0 set 746167 c080 1000 " + rk,      // overlong UTF-8
+		"claim 2 0 0 set 746167 eda080 1000 " + rk,    // surrogate
+		"claim 2 0 0 set 746167 f4908080 1000 " + rk,  // beyond U+10FFFF
+		"claim 2 0 0 set - 78 1000 " + rk,             // empty attribute
+		"claim 2 0 0 set 746167 78 0 " + rk,           // date 0
+		"claim 2 0 0 set 746167 78 01000 " + rk,       // leading zero
+		"claim 2 0 0 set 746167 78 99999999999 " + rk, // beyond MaxTime
 		"claim 2 0 0 set 746167 78 -5 " + rk,
-		"claim 2 0 0 set 746167 78 1000 " + rk,           // same content as claim 1: the same blob
-		"claim 2 0 0 set 746167 78 1000",                 // arity
+		"claim 2 0 0 set 746167 78 1000 " + rk, // same content as claim 1: the same blob
+		"claim 2 0 0 set 746167 78 1000",       // arity
 		"claim 2 0 0 set 746167 78 1000 " + rk + " 1",
 		"claim x 0 0 set 746167 78 1000 " + rk,
 		"delete 2 c9 0 2000 1", "delete 2 p1 0 2000 1", "delete 2 x1 0 2000 1", "delete 2 c 0 2000 1", "delete 1 c1 0 2000 1",
